@@ -26,17 +26,17 @@ checks = {
   note="Trusted: the AST instrumenter (checked on every run by running the repository's own suite on the instrumented copy), the step definition (entry of (*parser).parseExpr in the current tree; if that function disappears only the proportional bound applies), the learned text of the budget error (taken from budget 1 on a calibration input, not copied from the source).",
   technique="deterministic simulation: enumeration of injected abort points (parse budget) inside a running parse, differential against the unlimited run"),
 "C14": dict(engine="ordersim", category="exploration",
-  text="The order in which map entries are visited is the runtime's choice; in the instrumented copy every such choice inside go-bexpr's packages (reflect MapKeys/MapRange incl. method expressions, range over a map) goes through the simulator, which imposes the order an explicit tape dictates. For each seeded case - quantifiers in all binding modes, nested, Filter.Execute, generated expressions over generated data; maps of 2-8 entries with string, named-string and interface keys and case-colliding key names, whose elements are built and measured to mix true/false/error; optionally on a used object that has first evaluated a sibling map - the canonical order, its reverse, all rotations, all entry-first orders, seeded permutations and, for trees of <=5040 leaves, every order are executed and must give the same (boolean, error-or-not) / (result, error-or-not). Non-trivial cases are then repeated 200x on the untouched build under the real runtime to catch order sources the seam does not control. Seeded search over orders: a clean run is evidence, not proof.",
+  text="The order in which map entries are visited is the runtime's choice; in the instrumented copy every such choice inside go-bexpr's packages (reflect MapKeys/MapRange incl. method expressions, range over a map) goes through the simulator, which imposes the order an explicit tape dictates. For each seeded case - quantifiers in all binding modes, nested, Filter.Execute, generated expressions over generated data; maps of 2-8 entries with string, named-string and interface keys and case-colliding key names, whose elements are built and measured to mix true/false/error; optionally on a used object that has first evaluated a sibling map - the canonical order, its reverse, all rotations, all entry-first orders, seeded permutations and, for trees of <=5040 leaves, every order are executed and must give the same (boolean, error-or-not) / (result, error-or-not). Six orders of every case are also run as a fresh object's first call. When the library reads the clock, draws random numbers, asks for the processor count or starts goroutines of its own, those are simulator-owned too (logical clock with jumps, seeded stream, reported processor count 2/3/4/8, seeded schedules of the library's goroutines with modelled channels) and must not change the outcome. Non-trivial cases are then repeated 200x on the untouched build under the real runtime to catch order sources the seam does not control. Seeded search over orders: a clean run is evidence, not proof.",
   design="4.3",
   note="Trusted: the instrumenter's order seam covers every iteration-order source inside go-bexpr's packages (listed in the evidence; backed by the uncontrolled probe); key kinds in the pools have a value order. A panic is treated as an error outcome here (that it is a panic is C09's subject).",
   technique="deterministic simulation: simulator-owned map iteration order, seeded and exhaustive order tapes, plus uncontrolled-repetition probe"),
 "C13": dict(engine="simsched", category="exploration",
-  text="One simulated caller drives long-lived evaluators and filters through seeded histories (Evaluate, Execute, Expression, caller-side in-place mutation of the datum, forced GC, creation of further objects) with faults injected inside operations (the value-transformation hook fails on its j-th invocation; data that make calls error or panic). After every operation the outcome must equal that of a freshly created object on a pristine rebuild of the datum as the caller last left it, the datum's deep fingerprint (values, pointer topology, slice contents up to capacity, unexported fields) must be unchanged, and Expression() must return the creation string byte for byte. Seeded search over histories: evidence, not proof.",
+  text="One simulated caller drives long-lived evaluators and filters through seeded histories (Evaluate, Execute, Expression, caller-side in-place mutation of the datum, forced GC, creation of further objects) with faults injected inside operations (the value-transformation hook fails on its j-th invocation; the simulated clock jumps; the caller edits the container Execute returned; data that make calls error or panic). After every operation the outcome must equal that of a freshly created object on a pristine rebuild of the datum as the caller last left it, the datum's deep fingerprint (values, pointer topology, slice contents up to capacity, unexported fields) must be unchanged, Expression() must return the creation string byte for byte, and every value Execute returned must still be what it was when all later calls have returned. Seeded search over histories: evidence, not proof.",
   design="4.2",
   note="Trusted: the fingerprint covers everything reachable by reflection; the fresh object is the reference (the implementation is its own oracle for what a result should be). Hook panics are not injected (the library promises nothing about them).",
   technique="deterministic simulation: seeded operation histories with in-operation fault injection, checked op by op against a stateless reference (fresh object)"),
 "C12": dict(engine="simsched", category="exploration",
-  text="k=2..4 caller goroutines share evaluators/filters/data (mixed plans, hammer plans where every caller makes the same calls on one object, plans where callers only create their own objects); a cooperative scheduler that the race detector cannot see (plain loads/stores + Gosched, //go:norace) decides at statement granularity which caller runs, from seeded plans (back-to-back, PCT-style change points per operation, store-window bias, sync-gap bias right after lock/unlock/atomic statements, dense first-use, round-robin quanta, lockstep). Plans are executed in-process (throughput) and cold: generated by a purely sequential process, executed concurrent-run-first in fresh processes of the plain and the -race build. Oracles: every concurrent call returns what a fresh object returns sequentially; the outcome classes of the concurrent run and of the sequential run that follows it equal those of the sequential generating process (damage that outlives the objects); no ThreadSanitizer report (judged only by the synchronisation the library itself performs); shared data fingerprints unchanged; no deadlock on modelled locks. Seeded search over schedules: evidence, not proof.",
+  text="k=2..4 caller goroutines share evaluators/filters/data (mixed plans, hammer plans where every caller makes the same calls on one object, plans where callers only create their own objects); a cooperative scheduler that the race detector cannot see (plain loads/stores + Gosched, //go:norace) decides at statement granularity which caller runs, from seeded plans (back-to-back, PCT-style change points per operation, store-window bias, sync-gap bias right after lock/unlock/atomic statements, dense first-use, round-robin quanta, lockstep). Goroutines, channels, select, WaitGroups and timers inside the library itself are modelled (they become tasks and hand-offs of the same scheduler). Plans are executed in-process (throughput), cold, and in a first-use phase (hammer plans, each in a fresh process); cold means: generated by a purely sequential process, executed concurrent-run-first in fresh processes of the plain and the -race build. Oracles: every concurrent call returns what a fresh object returns sequentially; the outcome classes of the concurrent run and of the sequential run that follows it equal those of the sequential generating process (damage that outlives the objects); no ThreadSanitizer report (judged only by the synchronisation the library itself performs); shared data fingerprints and returned values unchanged; no deadlock on modelled locks or channels. Seeded search over schedules: evidence, not proof.",
   design="4.1",
   note="Trusted: ThreadSanitizer as shipped with the Go toolchain (its verdict is a proof when it reports; sync.Pool randomness under -race makes silence non-deterministic, so confirmations retry); statement-level yields (interleavings inside reflect/regexp/pointerstructure calls are not split); Mutex/RWMutex/Once/WaitGroup.Wait and go statements inside the library are modelled (spawned goroutines become tasks), channels/select/Cond are reported as unmodelled (a run that blocks on one ends in exit 2).",
   technique="deterministic simulation: seeded cooperative scheduling of caller goroutines with the race detector as in-run monitor and sequential-equivalence oracle"),
